@@ -8,6 +8,8 @@ pub const NS_B: &str = "urn:B";
 pub const NS_C: &str = "http://example.com/c";
 pub const NS_HOSTILE: &str = "urn:x&y\"z<w";
 pub const NS_SPACED: &str = "urn:sp ace d";
+/// a namespace URI with TAB and LF in it (through the API, or through character references in a document)
+pub const NS_TABBED: &str = "urn:t\tab\nlf";
 
 pub const LOCALS: &[&str] = &[
     "a", "b", "c", "e", "x", "y", "él", "a-b", "a.b", "_u", "n0", "A", "ab1", "xmlns", "xmlnsx", "id", "space",
@@ -248,6 +250,9 @@ pub fn ns_pool(rng: &mut Rng, cfg: &GenCfg) -> String {
     // a URI with spaces in it: the renderer may spell each as a literal TAB / LF / CR (attribute-value normalisation)
     if rng.chance(1, 16) {
         return NS_SPACED.to_string();
+    }
+    if rng.chance(1, 24) {
+        return NS_TABBED.to_string();
     }
     rng.pick(&[NS_A, NS_A, NS_B, NS_B, NS_C, XHTML_NS, SVG_NS]).to_string()
 }
